@@ -245,6 +245,14 @@ def run_random_chunk(args):
                     toks = [rand_tok(rng, False) for _ in range(n)]
                     if rng.random() < .5:
                         toks.insert(rng.randint(0, n), rand_tok(rng, True))
+                    if rng.random() < .12:
+                        # several symbolic axes, each using names bound earlier in the same dim string
+                        mk = lambda k, **kw: {"mods": [], "base": dict({"k": k, "nm": "", "v": 0, "e": []}, **kw)}
+                        x, y = rng.sample(NAMES, 2)
+                        toks = [mk("ident", nm=x), mk("sym", e=["+", ["n", x], ["i", 1]]), mk("ident", nm=y),
+                                mk("sym", e=rng.choice([["+", ["n", x], ["n", y]], ["*", ["n", y], ["i", 2]], ["-", ["n", y], ["n", x]]]))]
+                        if rng.random() < .4:
+                            toks.insert(rng.choice([0, 2, 4]), rand_tok(rng, True))
                     for t in toks:
                         if t["base"]["k"] == "empty" and "_" in t["mods"] and t["base"]["nm"]:
                             t["base"]["nm"] = ""
@@ -254,6 +262,17 @@ def run_random_chunk(args):
                     pre, _ = R.observe_memo(want_args=True)
                     pool = list(pre["single"].values()) + [0, 1, 1, 2, 3, 4]
                     shape = [rng.choice(pool) for _ in range(rank)]
+                    if (len(toks) == 4 and [t["base"]["k"] for t in toks] == ["ident", "sym", "ident", "sym"]
+                            and not any(t["mods"] for t in toks) and rng.random() < .7):
+                        # make the multi-symbolic template plausible: sizes derived from the two bound names
+                        a_, b_ = rng.randint(1, 3), rng.randint(1, 3)
+                        env = {toks[0]["base"]["nm"]: a_, toks[2]["base"]["nm"]: b_}
+                        ev = lambda e: e[1] if e[0] == "i" else env.get(e[1], 1) if e[0] == "n" else \
+                            {"+": ev(e[1]) + ev(e[2]), "-": ev(e[1]) - ev(e[2]), "*": ev(e[1]) * ev(e[2])}[e[0]]
+                        try:
+                            shape = [a_, ev(toks[1]["base"]["e"]), b_, max(ev(toks[3]["base"]["e"]), 0)]
+                        except Exception:
+                            pass
                     inst = rng.random() > .04
                     dtin = rng.random() > .04
                     obj = {"inst": inst, "dtin": dtin, "shape": shape}
